@@ -653,3 +653,42 @@ def run_typepos(chk, F, rid="R-TYPEPOS"):
     if n < 6:
         raise AnalysisBroken("%s: only %d create_prefix calls found in the builders" % (rid, n))
     chk.analysed[rid] = {"prefix_creations": n}
+
+
+# ---------------------------------------------------------------------------------------------- R-EOFLOC
+def run_eofloc(chk, L, rid="R-EOFLOC"):
+    """The scanner sets yylloc in YY_USER_ACTION, which flex runs for pattern rules only.  At the end of the text the
+    parser reports `$unexpected end of file` (and the comment rule `$Comment_not_closed`) with whatever yylloc the last
+    pattern rule left behind - for a block that ends in a line break that is [newline, first position of the next line):
+    a range whose start and end lie on different lines.  The <<EOF>> rules have to give the end of input its own range."""
+    chk.rule(rid, "every <<EOF>> rule of the scanner assigns both yylloc.start and yylloc.end (from the tracker's current "
+                  "position) before it reports or returns")
+    n = 0
+    for r in L.rules:
+        if not r.eof:
+            continue
+        n += 1
+        assigned = set()
+        for x in walk(r.action or {}):
+            tgts = []
+            if x.get("k") == "bin" and x.get("op") == "=":
+                tgts = [x["lhs"]]
+                y = x["rhs"]
+                while isinstance(y, dict) and y.get("k") == "bin" and y.get("op") == "=":      # a = b = c
+                    tgts.append(y["lhs"])
+                    y = y["rhs"]
+            for t in tgts:
+                while isinstance(t, dict) and t.get("k") in ("cast", "paren"):
+                    t = t["e"]
+                if isinstance(t, dict) and t.get("k") == "member" and "yylloc" in short(t.get("base") or {}) or \
+                        (isinstance(t, dict) and t.get("k") == "member" and "lloc" in short(t.get("base") or {})):
+                    assigned.add(t.get("name"))
+        ok = {"start", "end"} <= assigned
+        chk.ob(rid, "<%s><<EOF>>" % r.sc, ok,
+               "the <<EOF>> rule of start condition %s leaves yylloc as the last pattern rule set it (assigned here: %s): "
+               "`$unexpected end of file` / `$Comment_not_closed` for a block ending in a line break is reported from the "
+               "end of the last line to column 0 of the next one" % (r.sc, sorted(assigned) or "nothing"),
+               "/repo/src/lexer.l:%s" % r.line)
+    if n < 2:
+        raise AnalysisBroken("%s: %d <<EOF>> rules found in the scanner" % (rid, n))
+    chk.analysed[rid] = {"eof_rules": n}
